@@ -33,7 +33,7 @@ def cases(tier, seed):
     for i in range(n):
         fams = ["fine_patch", "refined", "sample"] if i % 5 == 4 else None  # high-resolution regional patches / locally refined closed meshes
         yield {"mesh": gen.random_mesh(rng, 150 if tier == "quick" else 900, families=fams), "dseed": int(rng.integers(0, 10**6)),
-               "source": ["topology", "topology", "topology", "centres_xyz_metres", "centres_xyz_and_lonlat_metres", "mpas"][int(rng.integers(0, 6))]}
+               "source": ["topology", "topology", "topology", "centres_xyz_metres", "centres_xyz_and_lonlat_metres", "mpas", "topology_float32"][int(rng.integers(0, 7))]}
 
 
 def run_case(ctx, case):
@@ -68,6 +68,16 @@ def run_case(ctx, case):
         except Exception as e:
             ctx.check("no_exception", False, {"stage": "open_mpas", "exc": core.exc_sig(e)}, {"exc": repr(e), "mesh": d})
             return
+    elif source == "topology_float32" and min(float(ref.angle(m.xyz[a], m.xyz[b])) for f in m.faces for a, b in zip(f, f[1:] + f[:1])) > 1e-4:
+        # single-precision node coordinates (what most model output files carry): the mesh judged is the one those values denote
+        lon, lat = m.lonlat()
+        lon32, lat32 = np.asarray(lon, dtype=np.float32), np.asarray(lat, dtype=np.float32)
+        m = gen.Mesh(ref.lonlat_to_xyz(lon32.astype(float), lat32.astype(float)), m.faces, dict(d, float32=True), m.closed)
+        try:
+            g = U.Grid.from_topology(lon32, lat32, m.padded(), fill_value=ux.INT_FILL)
+        except Exception as e:
+            ctx.check("no_exception", False, {"stage": "open_float32", "exc": core.exc_sig(e)}, {"exc": repr(e), "mesh": d})
+            return
     else:
         source = "topology"
         g = ux.grid_from_mesh(m)
@@ -87,7 +97,7 @@ def run_case(ctx, case):
             try:
                 sub = g.isel(n_face=np.asarray(idx, dtype=int))
                 rows = ux.rows(sub.face_node_connectivity.values)
-                sm = gen.Mesh(ux.grid_node_xyz(sub), rows, dict(d, derived=how), bool(m.closed and how == "permutation"))
+                sm = gen.Mesh(ux.grid_node_xyz(sub), rows, dict(m.desc, derived=how), bool(m.closed and how == "permutation"))
             except Exception as e:
                 ctx.check("no_exception", False, {"stage": "subset_" + how, "exc": core.exc_sig(e)}, {"exc": repr(e), "mesh": d})
                 continue
@@ -125,7 +135,8 @@ def check_dual(ctx, case, g, m, sig0, with_data=True):
     cent = np.array([ref.unit(m.ring_pos(i).mean(axis=0)) for i in range(m.n_face)])
     dpos = ux.grid_node_xyz(dual)
     # centres inside the library's pole-snapping band (|z| > 1 - 1e-8, sanctioned by C04) are reported at the pole
-    err = float(np.max(ref.angle(cent, dpos) - np.where(np.abs(cent[:, 2]) > 1 - 1.01e-8, 1.5e-4, 1e-9)))
+    # (single-precision sources: the centres are derived in the source's precision, 1e-6 rad)
+    err = float(np.max(ref.angle(cent, dpos) - np.where(np.abs(cent[:, 2]) > 1 - 1.01e-8 - (1e-5 if m.desc.get("float32") else 0), 1.5e-4 if not m.desc.get("float32") else 2e-3, 1e-9 if not m.desc.get("float32") else 1e-6)))
     ctx.check("node_at_face_centre", err < 0, sig0, {"max_err_over_tolerance_rad": err, "mesh": d})
     rows = ux.rows(dual.face_node_connectivity.values)
     probs = ux.standard_table(dual.face_node_connectivity, dual.n_node)
